@@ -23,6 +23,7 @@ type cop struct {
 	Bound  string // Loop: canonical bound ("len(Outputs)", "var:count", "rest")
 	Arg    string // V/F: canonical value expression on the writer side / target on the reader side
 	Cond   string // Alt: canonical branch condition
+	Var    string // reader: V = identity of the variable the count was read into; Loop = identity of the variable bounding it ("expr" if not a plain variable)
 }
 
 type codecFn struct {
@@ -72,6 +73,7 @@ type codecWalker struct {
 	aliases map[types.Object]string   // local var -> canonical meaning (e.g. count var)
 	locals  map[types.Object]ast.Expr // writer: local var -> defining expression
 	busy    map[types.Object]bool
+	madeLen map[string]string // reader: canonical field -> identity of the variable it was made with ("expr": not a plain variable, "0": made empty and appended to)
 }
 
 func findFuncDecl(p *packages.Package, recvType, name string) *ast.FuncDecl {
@@ -600,15 +602,20 @@ func (w *codecWalker) block(stmts []ast.Stmt) []cop {
 				continue
 			}
 			bound := "rest"
+			bvar := ""
 			if x.Cond != nil {
 				if be, ok := ast.Unparen(x.Cond).(*ast.BinaryExpr); ok {
 					bound = w.canon(be.Y)
+					bvar = w.varKey(be.Y)
+					if bvar == "" {
+						bvar = "expr"
+					}
 					if w.fn.Writer {
 						w.mention(be.Y)
 					}
 				}
 			}
-			ops = append(ops, cop{Kind: "Loop", Body: body, Pos: x.Pos(), Bound: bound})
+			ops = append(ops, cop{Kind: "Loop", Body: body, Pos: x.Pos(), Bound: bound, Var: bvar})
 		case *ast.RangeStmt:
 			body := w.block(x.Body.List)
 			if len(body) == 0 {
@@ -622,7 +629,12 @@ func (w *codecWalker) block(stmts []ast.Stmt) []cop {
 				// `for i := range m.X` on the reader: bound is the make size of X; fall back to var
 				bound = "len(" + w.canon(id) + ")"
 			}
-			ops = append(ops, cop{Kind: "Loop", Body: body, Pos: x.Pos(), Bound: bound})
+			bvar := ""
+			if !w.fn.Writer {
+				// `for i := range m.X`: bounded by whatever m.X was made with
+				bvar = w.madeLen[w.canon(x.X)]
+			}
+			ops = append(ops, cop{Kind: "Loop", Body: body, Pos: x.Pos(), Bound: bound, Var: bvar})
 		case *ast.BlockStmt:
 			ops = append(ops, w.block(x.List)...)
 		case *ast.SwitchStmt, *ast.TypeSwitchStmt, *ast.SelectStmt:
@@ -654,12 +666,35 @@ func returnsNonNilError(b *ast.BlockStmt) bool {
 
 func containsIO(ops []cop) bool { return len(ops) > 0 }
 
+// varKey identifies a local variable (name@declaration position); "" if e is not a plain variable.
+func (w *codecWalker) varKey(e ast.Expr) string {
+	id, ok := ast.Unparen(e).(*ast.Ident)
+	if !ok {
+		// conversions of a plain variable keep its identity: int(count)
+		if ce, ok := ast.Unparen(e).(*ast.CallExpr); ok && len(ce.Args) == 1 {
+			if tv, ok := w.info.Types[ce.Fun]; ok && tv.IsType() {
+				return w.varKey(ce.Args[0])
+			}
+		}
+		return ""
+	}
+	o := w.info.Uses[id]
+	if o == nil {
+		o = w.info.Defs[id]
+	}
+	if _, isVar := o.(*types.Var); !isVar {
+		return ""
+	}
+	return fmt.Sprintf("%s@%d", id.Name, o.Pos())
+}
+
 // stmtOps handles simple statements (assign, expr, decl, return).
 func (w *codecWalker) stmtOps(s ast.Stmt) []cop {
 	ops := w.opsInExpr(s)
 	if as, ok := s.(*ast.AssignStmt); ok && !w.fn.Writer && len(ops) == 1 && len(as.Rhs) == 1 && len(as.Lhs) >= 1 {
 		if _, isCall := ast.Unparen(as.Rhs[0]).(*ast.CallExpr); isCall && (ops[0].Kind == "V" || ops[0].Arg == "") {
 			ops[0].Arg = w.canon(as.Lhs[0])
+			ops[0].Var = w.varKey(as.Lhs[0])
 		}
 	}
 	if as, ok := s.(*ast.AssignStmt); ok && w.fn.Writer && as.Tok == token.DEFINE && len(as.Rhs) == 1 {
@@ -680,6 +715,17 @@ func (w *codecWalker) stmtOps(s ast.Stmt) []cop {
 			if len(as.Lhs) == 1 && len(as.Rhs) == 1 {
 				if ce, ok := ast.Unparen(as.Rhs[0]).(*ast.CallExpr); ok {
 					if id, ok := ce.Fun.(*ast.Ident); ok && id.Name == "make" && len(ce.Args) >= 2 {
+						if w.madeLen == nil {
+							w.madeLen = map[string]string{}
+						}
+						k := w.varKey(ce.Args[1])
+						if k == "" {
+							k = "expr"
+							if bl, ok := ast.Unparen(ce.Args[1]).(*ast.BasicLit); ok && bl.Value == "0" {
+								k = "0"
+							}
+						}
+						w.madeLen[w.canon(as.Lhs[0])] = k
 						if cid, ok := ast.Unparen(ce.Args[len(ce.Args)-1]).(*ast.Ident); ok {
 							if o := w.info.Uses[cid]; o != nil {
 								w.aliases[o] = "len(" + w.canon(as.Lhs[0]) + ")"
